@@ -218,7 +218,9 @@ func (devNull) Write(p []byte) (int, error) { return len(p), nil }
 // transitions (milliseconds each), so an overrun of minutes means one step never returned.
 const hangGrace = 3 * time.Minute
 
-func runUnit(u unit) (mc.Result, error) {
+func runUnit(u unit) (mc.Result, error) { return runUnitEnv(u) }
+
+func runUnitEnv(u unit, extraEnv ...string) (mc.Result, error) {
 	in, _ := json.Marshal(u)
 	limit := 40 * time.Minute
 	if u.Deadline > 0 {
@@ -228,7 +230,7 @@ func runUnit(u unit) (mc.Result, error) {
 	defer cancel()
 	cmd := exec.CommandContext(ctx, os.Args[0], "scenario")
 	cmd.Stdin = bytes.NewReader(in)
-	cmd.Env = append(os.Environ(), "GOMAXPROCS=2")
+	cmd.Env = append(append(os.Environ(), "GOMAXPROCS=2"), extraEnv...)
 	var stdout, stderr bytes.Buffer
 	cmd.Stdout, cmd.Stderr = &stdout, &stderr
 	err := cmd.Run()
@@ -307,6 +309,18 @@ func cmdCheck(args []string) int {
 			sem <- struct{}{}
 			defer func() { <-sem }()
 			results[i], errs[i] = runUnit(u)
+			// Snapshot mode restores only harness-owned state. If a replay from scratch disagrees with it,
+			// the code under test keeps state of its own (e.g. writes into an informer-cache object): explore
+			// that unit again purely by replay, where such state is reproduced, to get a verdict.
+			if errs[i] == nil && results[i].Nondet != "" && u.Kind == "bfs" && os.Getenv("VERIF_NO_SNAPSHOT") == "" {
+				fmt.Fprintf(os.Stderr, "note: %s: snapshot/replay mismatch (%s); re-running by replay only\n", u.id(), results[i].Nondet)
+				os.Setenv("VERIF_NO_SNAPSHOT_UNIT", "1")
+				r2, e2 := runUnitEnv(u, "VERIF_NO_SNAPSHOT=1")
+				if e2 == nil {
+					r2.Counters["rerun-by-replay-after-snapshot-mismatch"]++
+					results[i] = r2
+				}
+			}
 		}(i, u)
 	}
 	wg.Wait()
